@@ -74,7 +74,7 @@ func runScenario(ctl *hookctl.Ctl, idx int, sc scenario) (key, msg string, reach
 		select {
 		case <-ch:
 			return true
-		case <-time.After(20 * time.Second):
+		case <-time.After(vkit.Patient(20 * time.Second)):
 			key, msg = "stuck/"+sc.Kind+"/"+sc.Point, "timeout waiting for "+what+" (hook-derived positions: "+fmt.Sprint(ctl.Snapshot())+")"
 			return false
 		}
@@ -221,7 +221,7 @@ func runScenario(ctl *hookctl.Ctl, idx int, sc scenario) (key, msg string, reach
 			select {
 			case late = <-doneN:
 				got = true
-			case <-time.After(20 * time.Second):
+			case <-time.After(vkit.Patient(20 * time.Second)):
 				key, msg = "blocked-newtable/"+sc.Point, "NewTable did not finish while A is paused"
 				return
 			}
@@ -233,7 +233,7 @@ func runScenario(ctl *hookctl.Ctl, idx int, sc scenario) (key, msg string, reach
 		if !got {
 			select {
 			case late = <-doneN:
-			case <-time.After(20 * time.Second):
+			case <-time.After(vkit.Patient(20 * time.Second)):
 				key, msg = "blocked-newtable/"+sc.Point, "NewTable did not finish after A finished"
 				return
 			}
@@ -367,7 +367,7 @@ func TestVerif_Forced(t *testing.T) {
 				if commitPanic != nil {
 					key, msg = "two-holders/unregistered-handle", fmt.Sprintf("Commit of the transaction holding every registered table panics after a transaction through a rejected table handle ran: %v", commitPanic)
 				}
-			case <-time.After(20 * time.Second):
+			case <-time.After(vkit.Patient(20 * time.Second)):
 				key, msg = "stuck/after-rejected-registration", "Commit does not finish after a rejected duplicate NewTable"
 			}
 			if key == "" {
